@@ -83,7 +83,7 @@ class Ctx:
     def __init__(self, mod, tier, seed):
         self.mod, self.tier, self.seed = mod, tier, seed
         self.pid = mod.PROPERTY_ID
-        self.work = os.path.join(coqrun.WORK, self.pid)
+        self.work = os.path.join(coqrun.WORK, f"{self.pid}-{os.getpid()}")     # private to this run
         self.problems = []      # list of dict(kind, detail)   -- broken proof obligations / correspondence
         self.coverage = {}
         self.rng = random.Random(seed)
